@@ -154,7 +154,9 @@ def _execute(record, root):
     dcfg = dense_of(cfg)
     dh = _run_all(dcfg, [], dense, {"io_seam": False})
     if dh[-1]["status"] != 0:
-        raise core.HarnessError(f"dense reference run failed: {dh[-1].get('exc')}")
+        # the all-cadences-1 variant is itself a valid configuration of the system under test
+        failures.append(core.fail("run-failed", f"the same configuration with every cadence set to 1 raised: {dh[-1].get('exc')}", cfg=dcfg))
+        return core.Result.make(record, failures, stats, sig=None, nontrivial=False)
     got, problems = mdsim.dump_files(sparse, cfg)
     ref, rp = mdsim.dump_files(dense, dcfg)
     if rp:
